@@ -10,7 +10,9 @@ EVIDENCE = dict(
          "rejected assignments change nothing, stored encoding bijective over every value). The same probes are "
          "executed on real module instances by attribute assignment and by constructor keyword, plus a fresh-default "
          "event per controller, and Trace_RVCtl judges outcome and read-back. Every zero-based ranged controller is also "
-         "assigned through a MetaModule user-defined controller mapped onto it, under its own name and under its label alias. An event is non-trivial when the value "
+         "assigned through a MetaModule user-defined controller mapped onto it, under its own name and under its label alias. Further probes: after loads and MetaModules that mirror negative-minimum controllers "
+         "(rejection at min-1/max+1, acceptance at min/max, fresh defaults again), a held out-of-range value assigned again, modules named with "
+         "braces, lenient set_raw, attribute names as enum names. An event is non-trivial when the value "
          "differs from the default or the assignment is refused.",
     explanation="complete over 43 types x 502 controllers x {min-1,min,min+1,mid,max-1,max,max+1 | every enum member by "
                 "value and by name, invalid value, invalid name | booleans} x {strict, lenient} x {attribute, keyword}")
